@@ -11,9 +11,10 @@ for s in sorted(os.listdir(os.path.join(V, "seeded"))):
     if not os.path.isdir(d): continue
     m = json.load(open(d + "/meta.json"))
     title = ""
-    for l in open(d + "/notes.md"):
+    notes = open(d + "/notes.md").read().splitlines() if os.path.exists(d + "/notes.md") else (m.get("needs_to_manifest") or "").splitlines()
+    for l in notes:
         if l.startswith("# "):
-            title = re.sub(r"^\s*C\d\d\s*(seeded )?(/ )?[Cc]hange \d\s*[-—–:]*\s*", "", l[2:].strip()); break
+            title = re.sub(r"^\s*C\d\d\s*(seeded )?(/ )?[Cc]hange \d+\s*[-—–:]*\s*", "", l[2:].strip()); break
     first = list(m.get("check_verdicts", {}).values())[0] if m.get("check_verdicts") else ""
     now = list(m.get("check_verdicts_now", {}).values())[0] if m.get("check_verdicts_now") else first
     def cls(v):
